@@ -10,6 +10,8 @@ callback failures is covered by the E-REAL fault enumeration only (checks/c18.py
 -/
 import TbbVerif.Proofs.C18
 import TbbVerif.Proofs.C18.Remap
+import TbbVerif.Proofs.C18.LadderPool
+import TbbVerif.Proofs.C18.Guards2
 
 namespace TbbVerif.C18
 open TbbVerif.Cint
@@ -190,5 +192,378 @@ example : posixMemalignReject 4 100 = true ∧ posixMemalignReject 8 100 = false
 example : ledgerRun [] [.rawAlloc 1000 4096, .block 1024 100, .rawFree 1000 4096] = some [] ∧
     ledgerRun [] [.rawAlloc 1000 4096, .block 5000 100] = none ∧
     ledgerRun [] [.rawAlloc 1000 4096, .rawFree 1000 4096, .rawFree 1000 4096] = none := by decide
+
+end TbbVerif.C18
+
+/-! ## The failure ladder of the back end under an adversarial raw-memory oracle, and pools on the back-end model
+
+Model: C17's per-operation back-end model (`Model/C17Backend.lean`: `genericGetBlock` = bins → `scanCoalescQ(force)` →
+`askMemFromOS` (`addNewRegion`, region size from `maxRequestedSize`, advance regions, `bootsrapMemStatus`) → on refusal
+`releaseMemInCaches` (`Backend::clean`, `waitTillBlockReleased`, the locked-bins second chance) → retry → null), the oracle
+being the list `raws : List (Option (address × granted))` of answers in call order — ANY of them may be `none`;
+plus `Model/C18Ladder.lean` (front-end layers, pool reset / destroy, vocabulary).  `skip` is C17's ghost-precondition flag
+(raised when an internal step meets a block in an unexpected ghost state; the white-box differential compares every state of
+the real back end with the model and reports it). -/
+namespace TbbVerif.C18
+open TbbVerif.C18.Ladder
+open TbbVerif.C17
+open TbbVerif.C17.BE
+open TbbVerif.Generated.C17Backend
+
+/-- **failure_is_clean.**  `genericGetBlock` from ANY well-formed back-end state, for ANY request and ANY answers of the
+oracle (refusals at any position, any number of them):
+ * the state afterwards is well formed (C17's `WF`: exact tiling of every region, consistent boundary tags, bins = the free
+   blocks that name them, mask bits, coalescing queue = the queued blocks) and the pool configuration is untouched;
+ * no region is invented: every registered span afterwards was registered before or was granted by the oracle during the call;
+ * if no block is returned, the blocks in the hands of callers (address, size) are LITERALLY what they were;
+ * if null is returned, no delayed-coalescing request is left pending (`coalescQ` is empty: nothing stays LOCKED);
+ * null is returned only when the ladder really was exhausted under that oracle: if every answer is a usable grant
+   (`generous`: fresh, word aligned, disjoint, at least the largest raw request of the ladder) the result is not null. -/
+theorem failure_is_clean (s : St) (hw : WF s) (num size : Nat) (al : Bool) (raws : List Ans) :
+    WF (genericGetBlock s num size al raws).1 ∧ (genericGetBlock s num size al raws).1.g.cfg = s.g.cfg ∧
+    SpansFrom s (genericGetBlock s num size al raws).1 raws ∧
+    ((∀ a, (genericGetBlock s num size al raws).2.1 ≠ .block a) →
+      allUsers (genericGetBlock s num size al raws).1.regions = allUsers s.regions) ∧
+    ((genericGetBlock s num size al raws).2.1 = .null → (genericGetBlock s num size al raws).1.g.skip = false →
+      (genericGetBlock s num size al raws).1.g.queue = []) ∧
+    (s.g.cfg.fixedPool = false → 8192 ≤ num * size → num * size < 2 ^ 40 → s.g.maxReq < beMaxBinnedSmallPage → 2 ≤ raws.length →
+      generous (maxRawRequest s.g.cfg.granularity) (regSpans s.regions) raws →
+      (genericGetBlock s num size al raws).2.1 ≠ .null ∨ (genericGetBlock s num size al raws).1.g.skip = true) :=
+  ⟨genericGetBlock_wf s num size al raws hw, (genericGetBlock_frame s num size al raws).1, (genericGetBlock_frame s num size al raws).2.2.2.2,
+   genericGetBlock_users s num size al raws hw, genericGetBlock_null_queue s num size al raws hw,
+   fun hfix hlo hhi hmr hlen hgen => genericGetBlock_generous s num size al raws hw hfix hlo hhi hmr _ (fun _ hx => hx) hgen hlen⟩
+
+/-- **recovery.**  From every well-formed state in which no other thread is inside the back end (no bin mutex held by the
+environment, no delayed coalescing pending — `quiet`), in a pool that is not fixed: if the oracle grants from now on, the
+next request of any representable size (`8192 ≤ num*size < 2^40`) returns a block.  There is no poisoned state: nothing the
+earlier failures left behind (a region half registered, a bin bit, a LOCKED tag, `bootsrapMemStatus`) can make it fail. -/
+theorem recovery (s : St) (hw : WF s) (hq : quiet s) (hfix : s.g.cfg.fixedPool = false) (num size : Nat) (al : Bool) (raws : List Ans)
+    (hlo : 8192 ≤ num * size) (hhi : num * size < 2 ^ 40) (hmr : s.g.maxReq < beMaxBinnedSmallPage) (hlen : 2 ≤ raws.length)
+    (hgen : generous (maxRawRequest s.g.cfg.granularity) (regSpans s.regions) raws) :
+    (∃ a, (genericGetBlock s num size al raws).2.1 = .block a) ∨ (genericGetBlock s num size al raws).1.g.skip = true :=
+  genericGetBlock_quiet s num size al raws hw hfix hlo hhi hmr _ (fun _ hx => hx) hgen hlen hq.1 hq.2
+
+/-- **failure, then recovery.**  A request that fails with null — under whatever oracle — leaves a state from which, the
+environment not holding bin mutexes, the next request succeeds as soon as the oracle grants again. -/
+theorem failure_then_recovery (s : St) (hw : WF s) (hl : s.g.binLocked = []) (hfix : s.g.cfg.fixedPool = false)
+    (hmr : s.g.maxReq < beMaxBinnedSmallPage) (n1 sz1 : Nat) (al1 : Bool) (raws1 : List Ans)
+    (hnull : (genericGetBlock s n1 sz1 al1 raws1).2.1 = .null) (hskip : (genericGetBlock s n1 sz1 al1 raws1).1.g.skip = false)
+    (num size : Nat) (al : Bool) (raws : List Ans) (hlo : 8192 ≤ num * size) (hhi : num * size < 2 ^ 40) (hlen : 2 ≤ raws.length)
+    (hgen : generous (maxRawRequest s.g.cfg.granularity) (regSpans (genericGetBlock s n1 sz1 al1 raws1).1.regions) raws) :
+    (∃ a, (genericGetBlock (genericGetBlock s n1 sz1 al1 raws1).1 num size al raws).2.1 = .block a) ∨
+    (genericGetBlock (genericGetBlock s n1 sz1 al1 raws1).1 num size al raws).1.g.skip = true := by
+  obtain ⟨f1, _, f3, _, _⟩ := genericGetBlock_frame s n1 sz1 al1 raws1
+  refine recovery _ (genericGetBlock_wf s n1 sz1 al1 raws1 hw)
+    ⟨by rw [f3]; exact hl, genericGetBlock_null_queue s n1 sz1 al1 raws1 hw hnull hskip⟩ (by rw [f1]; exact hfix) num size al raws hlo hhi
+    (genericGetBlock_maxReq s n1 sz1 al1 raws1 hmr) hlen (by rw [f1]; exact hgen)
+
+/-- **no_partial_region.**  What `addNewRegion` does with an answer of the oracle, for every state and every answer:
+ * either it FAILS and then nothing is half-registered — the region list, the bins, their bit masks, the advance-bin registry,
+   the coalescing queue and the modification counter are what they were (only the log differs);
+ * or the granted memory `[a, a+g)` is FULLY registered: one new region at the head of `regionList` with exactly that span,
+   tiled by its first block and its `LastFreeBlock` (`regOK`), accounted in `totalMemSize`;
+and a usable grant (word aligned, not overlapping a live region, at least as large as the raw request, region size one the
+ladder uses) is never dropped: it is always registered. -/
+theorem no_partial_region (s : St) (hw : WF s) (size type : Nat) (atb : Bool) (raw : Ans)
+    (ht : type = beRegSlab ∨ type = beRegLarge ∨ type = beRegOne) :
+    (((addNewRegion s size type atb raw).2.1 = .fail ∧ (addNewRegion s size type atb raw).1.regions = s.regions ∧
+        (addNewRegion s size type atb raw).1.g.bins = s.g.bins ∧ (addNewRegion s size type atb raw).1.g.mask = s.g.mask ∧
+        (addNewRegion s size type atb raw).1.g.adv = s.g.adv ∧ (addNewRegion s size type atb raw).1.g.queue = s.g.queue ∧
+        (addNewRegion s size type atb raw).1.g.mods = s.g.mods) ∨
+     (∃ a g reg, raw = some (a, g) ∧ (addNewRegion s size type atb raw).2.1 ≠ .fail ∧
+        (addNewRegion s size type atb raw).1.regions = reg :: s.regions ∧ reg.base = a ∧ reg.allocSz = g ∧
+        regOK (addNewRegion s size type atb raw).1.g.cfg reg ∧
+        totalMem (addNewRegion s size type atb raw).1.regions = totalMem s.regions + g)) ∧
+    (∀ a g, raw = some (a, g) → s.g.cfg.fixedPool = false → a % 8 = 0 → a ≠ 0 → regionsOverlap s.regions a g = false →
+        rawRequest s.g size type ≤ g → 65536 ≤ g → (type ≠ beRegSlab → 32768 ≤ size ∧ size + 224 ≤ g) →
+        (addNewRegion s size type atb raw).2.1 ≠ .fail ∧ (a, g) ∈ regSpans (addNewRegion s size type atb raw).1.regions) := by
+  constructor
+  · rcases addNewRegion_regions s size type atb raw with ⟨hf, _⟩ | ⟨a, g, fb, bs, hr, hne, _, hreg⟩
+    · obtain ⟨e1, e2, e3, e4, e5, e6⟩ := addNewRegion_fail_state s size type atb raw hf
+      exact Or.inl ⟨hf, e1, e2, e3, e4, e5, e6⟩
+    · have hwf := addNewRegion_wf s size type atb raw hw ht
+      refine Or.inr ⟨a, g, _, hr, hne, hreg, rfl, rfl, hwf.regs _ (by rw [hreg]; exact List.mem_cons_self ..), ?_⟩
+      rw [hreg, totalMem_cons]
+      exact Nat.add_comm _ _
+  · intro a g hr hfix ha ha0 hov hreq hg hsz
+    subst hr
+    obtain ⟨fb, bs, hf⟩ : ∃ fb bs, findBlockInRegion a g type size = some (fb, bs) := by
+      by_cases hts : type = beRegSlab
+      · rw [hts]; exact findBlock_slab a g size ha hg
+      · obtain ⟨fb, hf⟩ := findBlock_large a g size type hts (hsz hts).1 (hsz hts).2
+        exact ⟨fb, size, hf⟩
+    obtain ⟨r1, _, r3, _⟩ := addNewRegion_succeeds s size type a g atb hfix ha ha0 hov hreq hg fb bs hf
+    refine ⟨by rw [r1]; cases atb <;> simp, ?_⟩
+    rw [r3]
+    exact List.mem_cons_self ..
+
+/-- **The front end on a null: `mallocLargeObject`.**  Whatever the two oracles answer (raw memory for the back end, raw
+memory for a new leaf of the back-reference table): when no large block is returned — `newBackRef` gave an invalid index, or
+`getLargeBlock` returned null and the index was removed again — the back end is well formed with the handed-out blocks
+literally unchanged, the back-reference table satisfies its invariant and every index is live exactly when it was before. -/
+theorem large_object_failure_is_clean (f : FE) (sz : Nat) (rawsBe : List Ans) (rawsBr : List (Option Nat)) (hw : WF f.be)
+    (hi : BR.tabInv f.br) (hn : ∀ a i, (mallocLargeObject f sz rawsBe rawsBr).2 ≠ .large a i) :
+    WF (mallocLargeObject f sz rawsBe rawsBr).1.be ∧ BR.tabInv (mallocLargeObject f sz rawsBe rawsBr).1.br ∧
+    allUsers (mallocLargeObject f sz rawsBe rawsBr).1.be.regions = allUsers f.be.regions ∧
+    ∀ j : BR.Idx, (mallocLargeObject f sz rawsBe rawsBr).1.br.live j = f.br.live j :=
+  mallocLargeObject_null f sz rawsBe rawsBr hw hi hn
+
+/-- **The front end on a null: `getEmptyBlock`** (PARTIAL).  For every oracle the back end is well formed afterwards on
+every path — slab blocks and back references obtained, or back references refused and all `num` slab blocks put back —, and
+when `getSlabBlock` itself returns null the handed-out blocks are literally unchanged and the back-reference table is not
+touched.  Missing for the full statement (as proved for `mallocLargeObject`): that the roll-back loop restores exactly the
+handed-out blocks and the live indices it started from; that path is exercised by the E-REAL back-reference exhaustion
+scenario only. -/
+theorem empty_block_failure_is_clean_partial (f : FE) (userPool : Bool) (num : Nat) (rawsBe : List Ans) (rawsBr : List (Option Nat))
+    (hw : WF f.be) :
+    WF (getEmptyBlock f userPool num rawsBe rawsBr).1.be ∧
+    ((∀ a, (genericGetBlock f.be num beSlabSize true rawsBe).2.1 ≠ .block a) →
+      allUsers (getEmptyBlock f userPool num rawsBe rawsBr).1.be.regions = allUsers f.be.regions ∧
+      (getEmptyBlock f userPool num rawsBe rawsBr).1.br = f.br) :=
+  getEmptyBlock_clean f userPool num rawsBe rawsBr hw
+
+/-- `pool_create_v1` keeps nothing when it reports `NO_MEMORY`: whichever acquisition fails (library start-up,
+the `MemoryPool` object, the TLS key), the object and the key are not held on return. -/
+theorem pool_create_failure_holds_nothing (initOk mallocOk keyOk : Bool) :
+    ((poolCreateAcquire initOk mallocOk keyOk).err = .ok ↔ (initOk = true ∧ mallocOk = true ∧ keyOk = true)) ∧
+    ((poolCreateAcquire initOk mallocOk keyOk).err ≠ .ok →
+      (poolCreateAcquire initOk mallocOk keyOk).holdsObject = false ∧ (poolCreateAcquire initOk mallocOk keyOk).holdsKey = false) := by
+  cases initOk <;> cases mallocOk <;> cases keyOk <;> decide
+
+/-! ### pools on the back-end model -/
+
+/-- **pool_blocks_inside_own_regions.**  For every pool configuration and every sequence of back-end operations with
+every oracle: each block in the hands of a caller lies inside a region that is registered NOW (behind its header, in front
+of its `LastFreeBlock`), that region is memory the pool's OWN oracle granted during this very run (and has not been given
+back since: it is still in `regionList`), the PoolLedger whose state is the projection of `regionList` accepts the block,
+and that ledger state is pairwise disjoint (so `ledger_inside` / `ledger_return_once` apply to it). -/
+theorem pool_blocks_inside_own_regions (cfg : Cfg) (ops : List Op) :
+    (regSpans ((machine cfg).run ops).1.regions).Pairwise C18.Region.disjoint ∧
+    (∀ x ∈ regSpans ((machine cfg).run ops).1.regions, x ∈ grants (allRaws ops)) ∧
+    ∀ u ∈ allUsers ((machine cfg).run ops).1.regions,
+      (∃ r ∈ ((machine cfg).run ops).1.regions, (r.base, r.allocSz) ∈ grants (allRaws ops) ∧
+        r.base + beSizeofMemRegion ≤ u.1 ∧ u.1 + u.2 + beSizeofLastFreeBlock ≤ r.base + r.allocSz) ∧
+      C18.ledgerStep (regSpans ((machine cfg).run ops).1.regions) (.block u.1 u.2) = some (regSpans ((machine cfg).run ops).1.regions) := by
+  have hw := wf_run cfg ops
+  have hfr := (run_frame cfg ops (machine cfg).init).2.2
+  have hown : ∀ x ∈ regSpans ((machine cfg).run ops).1.regions, x ∈ grants (allRaws ops) := by
+    intro x hx
+    rcases hfr x hx with h | h
+    · cases h
+    · exact h
+  refine ⟨spans_pairwise _ hw, hown, fun u hu => ?_⟩
+  obtain ⟨_, r, hr, h1, h2⟩ := users_inside _ hw u hu
+  have hm : (r.base, r.allocSz) ∈ regSpans ((machine cfg).run ops).1.regions := List.mem_map.mpr ⟨r, hr, rfl⟩
+  refine ⟨⟨r, hr, hown _ hm, h1, h2⟩, ?_⟩
+  simp only [C18.ledgerStep]
+  rw [if_pos]
+  refine List.any_eq_true.mpr ⟨_, hm, ?_⟩
+  show decide (C18.Region.contains (r.base, r.allocSz) u.1 u.2) = true
+  apply decide_eq_true
+  unfold C18.Region.contains
+  simp only [beSizeofMemRegion, beSizeofLastFreeBlock] at h1 h2
+  exact ⟨by show r.base ≤ u.1; omega, by show u.1 + u.2 ≤ r.base + r.allocSz; omega⟩
+
+/-- an address lies in raw memory registered by this pool's back end -/
+def inPool (p : St) (addr : Nat) : Prop := ∃ r ∈ p.regions, r.base ≤ addr ∧ addr < r.base + r.allocSz
+
+/-- **pool_identify_sound.**  Any number of pools whose raw allocators hand out pairwise disjoint memory (each pool's
+registered spans are disjoint from every other pool's): every address inside a block handed out by pool `i` lies in raw
+memory of pool `i` and of NO other pool — so the pool recorded in the block when it was handed out (`Block::poolPtr`,
+`LargeMemoryBlock::pool`, what `pool_identify` reads back) is the one and only pool that owns the memory; the check compares
+`pool_identify` with exactly this region-membership test on every live object. -/
+theorem pool_identify_sound (pools : List St) (hwf : ∀ p ∈ pools, WF p)
+    (hdisj : ∀ (i j : Nat) (hi : i < pools.length) (hj : j < pools.length), i ≠ j →
+      ∀ x ∈ regSpans pools[i].regions, ∀ y ∈ regSpans pools[j].regions, spanDisj x y)
+    (i : Nat) (hi : i < pools.length) (u : Nat × Nat) (hu : u ∈ allUsers pools[i].regions) (addr : Nat)
+    (ha : u.1 ≤ addr ∧ addr < u.1 + u.2) :
+    inPool pools[i] addr ∧ ∀ (j : Nat) (hj : j < pools.length), j ≠ i → ¬ inPool pools[j] addr := by
+  obtain ⟨_, r, hr, h1, h2⟩ := users_inside _ (hwf _ (List.getElem_mem hi)) u hu
+  simp only [beSizeofMemRegion, beSizeofLastFreeBlock] at h1 h2
+  refine ⟨⟨r, hr, by omega, by omega⟩, fun j hj hne hin => ?_⟩
+  obtain ⟨r', hr', b1, b2⟩ := hin
+  have := hdisj i j hi hj (fun h => hne h.symm) (r.base, r.allocSz) (List.mem_map.mpr ⟨r, hr, rfl⟩)
+    (r'.base, r'.allocSz) (List.mem_map.mpr ⟨r', hr', rfl⟩)
+  unfold spanDisj at this
+  simp only at this
+  omega
+
+/-- **fixed_pool_single_raw_call.**  A fixed pool calls its raw allocator at most once in its whole life — whatever the
+operations and whatever the callback answers (the one call is `requestBootstrapMem`'s; once `bootsrapMemStatus` is DONE no
+rung of the ladder asks again, in particular not when the one region is exhausted) — so, with
+`pool_blocks_inside_own_regions`, everything it ever hands out lies inside that one grant. -/
+theorem fixed_pool_single_raw_call (cfg : Cfg) (hf : cfg.fixedPool = true) (ops : List Op) :
+    (((machine cfg).run ops).2.map usedOf).sum ≤ 1 :=
+  (run_used_fixed cfg ops (machine cfg).init hf).1
+
+/-- **pool_reset_destroy_return_once.**  On the back-end model, for every well-formed state:
+ * `pool_reset` (`delayRegionsReleasing(true)`, `Backend::reset`, `delayRegionsReleasing(false)`) returns NO raw memory —
+   the registered spans are exactly what they were, with or without `keepAllMemory` —, leaves a well-formed back end and no
+   block handed out (every region is one free block again);
+ * `pool_destroy` (`Backend::destroy`) offers EVERY region of `regionList` to the raw-free callback exactly once, in list
+   order, whatever the callback answers — in particular it goes on after an answer that reports failure —; the PoolLedger
+   that is the projection of `regionList` accepts exactly this sequence and ends empty (every raw region returned once,
+   none twice: `ledger_return_once`); the result is `true` iff the TLS key was destroyed and every answer reported success;
+   a pool without a raw-free callback (fixed pools may have none) makes no raw-free call. -/
+theorem pool_reset_destroy_return_once (s : St) (hw : WF s) (keyOk : Bool) (answers : List Bool) :
+    (regSpans (poolReset s).regions = regSpans s.regions ∧ WF (poolReset s) ∧ allUsers (poolReset s).regions = []) ∧
+    ((poolDestroy s true keyOk answers).2 = s.regions.map (fun r => C18.Ev.rawFree r.base r.allocSz) ∧
+      C18.ledgerRun (regSpans s.regions) (poolDestroy s true keyOk answers).2 = some [] ∧
+      ((poolDestroy s true keyOk answers).1 = true ↔ keyOk = true ∧ ∀ k, k < s.regions.length → answers.getD k true = true)) ∧
+    (poolDestroy s false keyOk answers).2 = [] := by
+  refine ⟨?_, ?_, rfl⟩
+  · have hw1 : WF ⟨{ s.g with delay := true }, s.regions⟩ := wf_congr s.g _ s.regions hw rfl rfl rfl rfl rfl
+    have hr := reset_wf _ hw1
+    obtain ⟨_, _, f3⟩ := reset_frame ⟨{ s.g with delay := true }, s.regions⟩
+    refine ⟨f3, wf_congr _ _ _ hr rfl rfl rfl rfl rfl, ?_⟩
+    show allUsers (BE.reset ⟨{ s.g with delay := true }, s.regions⟩).regions = []
+    have hb := hr.not_bad
+    unfold BE.reset at hb ⊢
+    simp only [] at hb ⊢
+    have := resetRegions_users s.regions { ({ s.g with delay := true } : Glob) with queue := [], mods := s.g.mods + s.g.queue.length, bins := [], mask := [], adv := [] } hw.not_bad
+    generalize resetRegions _ s.regions = q at this hb ⊢
+    obtain ⟨g', rs'⟩ := q
+    exact this hb
+  · obtain ⟨d1, d2, d3⟩ := destroyLoop_spec s.regions answers
+    unfold poolDestroy
+    simp only [if_true]
+    generalize destroyLoop s.regions answers = q at d1 d2 d3 ⊢
+    obtain ⟨ok, evs⟩ := q
+    simp only [] at d1 d2 d3 ⊢
+    refine ⟨d1, d2, ?_⟩
+    rw [Bool.and_eq_true, d3]
+
+/-! ### entry-point guards, second part (all over definitions generated from the current source text) -/
+section Guards2
+open TbbVerif.Cint
+open TbbVerif.Generated.C18
+
+/-- **`pool_create_v1` argument checks are exact**: `INVALID_POLICY` exactly when there is no raw allocator, the version
+is older than this library's, or there is no raw-free callback although the pool is not fixed; a policy that passes both
+tests has a raw allocator, exactly this library's version, no reserved flag, and a raw-free callback unless it is fixed
+(what `Backend::freeRawMem` / `ExtMemoryPool::destroy` rely on when they call `rawFree`).  (The granularity is not
+checked by the code: `allocRawMem` rounds with `alignUpGeneric`, which is correct for any granularity.) -/
+theorem pool_create_args_exact (pAlloc pFree : Nat) (version : Int) (fixedPool : Bool) (reserved : Nat) :
+    (poolCreateInvalid pAlloc pFree version fixedPool reserved = true ↔
+      (pAlloc = 0 ∨ version < poolVersion ∨ (fixedPool = false ∧ pFree = 0))) ∧
+    (poolCreateInvalid pAlloc pFree version fixedPool reserved = false → poolCreateUnsupported pAlloc pFree version fixedPool reserved = false →
+      pAlloc ≠ 0 ∧ version = poolVersion ∧ reserved = 0 ∧ (fixedPool = true ∨ pFree ≠ 0)) := by
+  unfold poolCreateInvalid poolCreateUnsupported poolVersion
+  cases fixedPool <;> simp <;> omega
+
+/-- `pool_aligned_malloc` / `pool_aligned_realloc` test their arguments exactly as `scalable_aligned_malloc` /
+`scalable_aligned_realloc` do, so `memalign_args` (exactness) covers them: null exactly for an alignment that is not a
+power of two (or size 0 for the malloc form). -/
+theorem pool_aligned_args (size alignment : Nat) :
+    poolAlignedMallocReject size alignment = alignedMallocReject size alignment ∧
+    poolAlignedReallocReject size alignment = alignedReallocReject size alignment := ⟨rfl, rfl⟩
+
+/-- **`reallocAligned` copies `min(old, new)` bytes** (so it neither reads beyond the old object nor writes beyond the new
+one); the translator also checks that the old block is freed in exactly one place, under `if (result)`: a failed
+reallocation leaves the old block alive and intact. -/
+theorem realloc_copy_len_sound (copySize newSize : Nat) :
+    reallocCopyLen copySize newSize = min copySize newSize ∧ reallocCopyLen copySize newSize ≤ copySize ∧
+    reallocCopyLen copySize newSize ≤ newSize := by
+  unfold reallocCopyLen
+  split <;> rename_i h <;> simp only [decide_eq_true_eq] at h <;> omega
+
+/-- **The `n * sizeof(T)` tests of `scalable_allocator<T>::allocate` and `memory_pool_allocator<T>::allocate` are exact**:
+`std::bad_alloc` (null before the call) exactly when the true product does not fit in `size_t`; otherwise exactly
+`n * sizeof(T)` bytes are requested. -/
+theorem cxx_allocate_guard_exact (n sizeofT : Nat) (hs : 0 < sizeofT) :
+    (scalableAllocatorReject n sizeofT = true ↔ 2 ^ 64 ≤ n * sizeofT) ∧
+    (scalableAllocatorReject n sizeofT = false → scalableAllocatorArg n sizeofT = n * sizeofT) ∧
+    (poolAllocatorReject n sizeofT = true ↔ 2 ^ 64 ≤ n * sizeofT) ∧
+    (poolAllocatorReject n sizeofT = false → poolAllocatorArg n sizeofT = n * sizeofT) := by
+  have h := alloc_guard n sizeofT hs
+  refine ⟨h, fun hf => ?_, h, fun hf => ?_⟩ <;>
+  · have : ¬ 2 ^ 64 ≤ n * sizeofT := fun hc => by
+      first
+        | (have := h.mpr hc; unfold scalableAllocatorReject at hf; rw [this] at hf; cases hf)
+        | (have := h.mpr hc; unfold poolAllocatorReject at hf; rw [this] at hf; cases hf)
+    first
+      | (unfold scalableAllocatorArg; exact Nat.mod_eq_of_lt (by omega))
+      | (unfold poolAllocatorArg; exact Nat.mod_eq_of_lt (by omega))
+
+/-- **`cache_aligned_allocate`'s wrap test is exact**: `bad_alloc` exactly when `size + cache_line_size` does not fit; so
+whenever the handler is reached the padded size the fallback allocator forms (`alignment + bytes`) is the true sum. -/
+theorem cache_aligned_allocate_guard_exact (size cls : Nat) (hs : size < 2 ^ 64) (hc : cls < 2 ^ 64) :
+    (cacheAlignedReject size cls = true ↔ 2 ^ 64 ≤ size + cls) ∧
+    (cacheAlignedReject size cls = false → (size + cls) % 2 ^ 64 = size + cls) := by
+  unfold cacheAlignedReject
+  simp only [decide_eq_true_eq, decide_eq_false_iff_not]
+  refine ⟨⟨fun h => ?_, fun h => ?_⟩, fun h => ?_⟩ <;> omega
+
+/-- `tbb::cache_aligned_allocator<T>::allocate(n)` and `tbb::tbb_allocator<T>::allocate(n)` multiply WITHOUT a test.
+PARTIAL: the request is the true product (and `cache_aligned_allocate` does not throw for overflow) only for
+`n ≤ max_size()`.  The full statement — `bad_alloc` whenever `n * sizeof(T)` does not fit — is FALSE for the code as it is
+(`cacheAlignedAllocatorArg (2^61+1) 8 = 8`: an 8-byte block is returned for 2^61+1 objects; known finding
+`cxx-cache-aligned-allocator-n-times-sizeof-wraps`, reproduced on the real library by the check). -/
+theorem cache_aligned_allocator_arg_partial (n sizeofT cls : Nat) (hs : 0 < sizeofT) (hc : cls < 2 ^ 64)
+    (hmax : n ≤ (2 ^ 64 - 1 - cls) / sizeofT) :
+    cacheAlignedAllocatorArg n sizeofT = n * sizeofT ∧ tbbAllocatorArg n sizeofT = n * sizeofT ∧
+    cacheAlignedReject (n * sizeofT) cls = false := by
+  have h1 : n * sizeofT ≤ 2 ^ 64 - 1 - cls := by
+    have := (Nat.le_div_iff_mul_le hs).mp hmax
+    exact this
+  have hlt : n * sizeofT < 2 ^ 64 := by omega
+  refine ⟨Nat.mod_eq_of_lt hlt, Nat.mod_eq_of_lt hlt, ?_⟩
+  have := (cache_aligned_allocate_guard_exact (n * sizeofT) cls hlt hc).1
+  cases hr : cacheAlignedReject (n * sizeofT) cls with
+  | false => rfl
+  | true => have := this.mp hr; omega
+
+/-- `cache_aligned_resource::do_allocate(bytes, alignment)` adds its padding WITHOUT a test.  PARTIAL: the space it asks
+its upstream resource for is the true sum — at least `bytes` plus a whole (corrected) alignment, what its two assertions
+need — only while that sum fits.  The full statement is FALSE for the code as it is (`carSpace (2^64-64) 64 64 = 0`: the
+upstream resource is asked for 0 bytes and the header word is then written outside the block; known finding
+`cxx-cache-aligned-resource-space-wraps`). -/
+theorem cache_aligned_resource_space_partial (bytes alignment cls : Nat)
+    (hfit : max bytes 8 + max alignment cls < 2 ^ 64) :
+    carSpace bytes alignment cls = max bytes 8 + max alignment cls ∧ bytes + alignment ≤ carSpace bytes alignment cls := by
+  unfold carSpace carCorrectSize carCorrectAlignment
+  have e1 : (if decide (bytes < 8) = true then 8 else bytes) = max bytes 8 := by
+    split <;> rename_i h <;> simp only [decide_eq_true_eq] at h <;> omega
+  have e2 : (if decide (alignment < cls) = true then cls else alignment) = max alignment cls := by
+    split <;> rename_i h <;> simp only [decide_eq_true_eq] at h <;> omega
+  rw [e1, e2, Nat.mod_eq_of_lt hfit]
+  omega
+
+example : poolCreateInvalid 0 1 1 false 0 = true ∧ poolCreateInvalid 1 0 1 false 0 = true ∧ poolCreateInvalid 1 0 1 true 0 = false ∧
+    poolCreateInvalid 1 1 0 false 0 = true ∧ poolCreateUnsupported 1 1 2 false 0 = true ∧ poolCreateUnsupported 1 1 1 false 4 = true ∧
+    poolCreateUnsupported 1 1 1 false 0 = false := by decide
+example : scalableAllocatorReject (2 ^ 61) 8 = true ∧ scalableAllocatorReject (2 ^ 61 - 1) 8 = false ∧ scalableAllocatorArg (2 ^ 61 - 1) 8 = 2 ^ 64 - 8 := by decide
+example : cacheAlignedReject (2 ^ 64 - 64) 64 = true ∧ cacheAlignedReject (2 ^ 64 - 65) 64 = false ∧ cacheAlignedAllocatorArg (2 ^ 61 + 1) 8 = 8 ∧
+    tbbAllocatorArg (2 ^ 61 + 1) 8 = 8 ∧ carSpace (2 ^ 64 - 64) 64 64 = 0 ∧ carSpace 100 8 64 = 164 ∧ reallocCopyLen 100 40 = 40 := by decide
+
+end Guards2
+
+/-! Non-vacuity: the hypotheses above are satisfiable and the ladder does fail / recover on concrete inputs. -/
+def exCfg : Cfg := ⟨false, false, 4096⟩
+-- both requests refused (bootstrap region, then the region for the slab): null, both answers consumed, nothing registered
+set_option maxRecDepth 20000 in
+example : (genericGetBlock (machine exCfg).init 1 16384 true [none, none]).2.1 = .null ∧
+    (genericGetBlock (machine exCfg).init 1 16384 true [none, none]).2.2 = 2 ∧
+    (genericGetBlock (machine exCfg).init 1 16384 true [none, none]).1.regions = [] ∧
+    (genericGetBlock (machine exCfg).init 1 16384 true [none, none]).1.g.skip = false := by decide
+-- bootstrap refused, second answer granted: the request succeeds (a later rung of the ladder delivers)
+set_option maxRecDepth 20000 in
+example : isBlock (genericGetBlock (machine exCfg).init 1 16384 true [none, some (1073741824, 1048576), none, none, none]).2.1 = true := by decide
+-- after the failure the state is quiet and a generous oracle is accepted by `recovery`'s hypotheses
+set_option maxRecDepth 20000 in
+example : quiet (genericGetBlock (machine exCfg).init 1 16384 true [none, none]).1 ∧
+    generous (maxRawRequest 4096) (regSpans (genericGetBlock (machine exCfg).init 1 16384 true [none, none]).1.regions)
+      [some (2 ^ 42, 2 ^ 41 + 4096), some (2 ^ 43, 2 ^ 41 + 4096)] := by decide
+set_option maxRecDepth 20000 in
+example : isBlock (genericGetBlock (genericGetBlock (machine exCfg).init 1 16384 true [none, none]).1 1 16384 true
+    [some (2 ^ 42, 2 ^ 41 + 4096), some (2 ^ 43, 2 ^ 41 + 4096)]).2.1 = true := by decide
+-- a fixed pool asks once: the second request consumes no answer
+set_option maxRecDepth 20000 in
+example : (genericGetBlock (machine ⟨true, false, 4096⟩).init 1 16384 true [some (1073741824, 4194304)]).2.2 = 1 ∧
+    (genericGetBlock (genericGetBlock (machine ⟨true, false, 4096⟩).init 1 16384 true [some (1073741824, 4194304)]).1 1 16384 true
+      [some (2147483648, 4194304)]).2.2 = 0 := by decide
+example : (destroyLoop [⟨4096, 8192, 0, 0, 0, []⟩, ⟨65536, 4096, 0, 0, 0, []⟩] [false, true]).1 = false ∧
+    (destroyLoop [⟨4096, 8192, 0, 0, 0, []⟩, ⟨65536, 4096, 0, 0, 0, []⟩] [false, true]).2 = [.rawFree 4096 8192, .rawFree 65536 4096] := by decide
+example : poolCreateAcquire true true false = ⟨.noMemory, false, false⟩ ∧ poolCreateAcquire true true true = ⟨.ok, true, true⟩ := by decide
 
 end TbbVerif.C18
